@@ -134,6 +134,8 @@ def gen_histories(tier, rng):
             inner = (base + rng.randrange(0, n), rng.randint(1, 3), sb)
             yield {"copier": copier, "blocks": [a, inner, a]}
             yield {"copier": copier, "blocks": [a, a]}
+            yield {"copier": copier, "blocks": [(base + 5, 3, sb), (base, rng.choice([0x1000, 0x1800, 0x10001]), sa)]}
+            yield {"copier": copier, "blocks": [(base + 0x900, 2, sb), (base + 0x10, 7, sa), (base, 0x2000, sa), (base + 0x900, 2, sb)]}
             yield {"copier": copier, "blocks": [a, (base, n, sb), a, inner]}
 
 
